@@ -2040,3 +2040,25 @@ package ecs
 //@   inv i <= cnt && cnt == uint32(count) && !isLocked(w) && w.listener == old(w.listener) && lockInv(&w.locks) && newSelected(w, arch, len(comps))
 //@   inv notifyCount[w.listener.val] == old(notifyCount[w.listener.val]) + int(i)
 //@   inv i > 0 ==> notifyLast[w.listener.val] == evtId(mk(EntityEvent, nil, exchNewRel(arch), comps, nil, arch.archetypeAccess.Mask, zeroMaskV(), entAt(&arch.archetypeAccess, startIdx + i - 1), mk(Entity, 0, 0), newBits(arch, len(comps))))
+
+// batchArchetypes (C08): the entry list of a batch-result query. Add appends exactly one entry (table, source table,
+// first row, end row) and keeps all earlier entries; Get/Len read it. nextArchetypeBatch (C03) iterates entry k over
+// rows [StartIndex[k], EndIndex[k]).
+//@ pred batchOK(s *batchArchetypes) bool = len(s.Archetype) == len(s.StartIndex) && len(s.Archetype) == len(s.EndIndex) && len(s.Archetype) == len(s.OldArchetype)
+//@   && (s.Archetype.data == nil || s.Archetype.data != s.OldArchetype.data) && (s.StartIndex.data == nil || s.StartIndex.data != s.EndIndex.data)
+//@   && allocated(s.Archetype.data) && allocated(s.OldArchetype.data) && allocated(s.StartIndex.data) && allocated(s.EndIndex.data)
+//@ func batchArchetypes.Add(s, arch, oldArch, start, end)
+//@   props C08 C03
+//@   requires batchOK(s) && len(s.Archetype) < 1073741823
+//@   ensures batchOK(s) && len(s.Archetype) == old(len(s.Archetype)) + 1
+//@   ensures s.Archetype[old(len(s.Archetype))] == arch && s.OldArchetype[old(len(s.Archetype))] == oldArch && s.StartIndex[old(len(s.Archetype))] == start && s.EndIndex[old(len(s.Archetype))] == end
+//@   ensures forall k int :: {s.Archetype[k]} 0 <= k && k < old(len(s.Archetype)) ==> s.Archetype[k] == old(s.Archetype[k]) && s.OldArchetype[k] == old(s.OldArchetype[k]) && s.StartIndex[k] == old(s.StartIndex[k]) && s.EndIndex[k] == old(s.EndIndex[k])
+//@   modifies s.Archetype, s.Archetype[ALL], s.OldArchetype, s.OldArchetype[ALL], s.StartIndex, s.StartIndex[ALL], s.EndIndex, s.EndIndex[ALL]
+//@ func batchArchetypes.Get(s, index) (r)
+//@   props C08 C03
+//@   requires 0 <= index && int(index) < len(s.Archetype)
+//@   ensures r == s.Archetype[int(index)]
+//@ func batchArchetypes.Len(s) (n)
+//@   props C08 C03
+//@   requires len(s.Archetype) < 2147483647
+//@   ensures int(n) == len(s.Archetype)
